@@ -135,6 +135,12 @@ def templates(seed, tier):
                         "text": PROGRAM.replace("BODY", body), "dom": {"a": (0, 3)}})
     for name, text, dom in CLOSURES:
         out.append({"name": name, "role": name, "text": text, "dom": dom})
+    # large activations: functions whose emitted Lua comes close to Lua's 200-locals limit (K = 94 filler definitions is the largest that
+    # still loads on the pinned tree) - values held across the recursive calls must still be per activation
+    for K in ((60, 90) if tier == "quick" else (40, 60, 80, 86, 90, 92, 94)):
+        fill = "".join("    f%d := n + %d\n" % (i, i) for i in range(K))
+        out.append({"name": "large_activation_%d" % K, "role": "value-held-across-recursive-call(function with %d local definitions)" % K, "dom": {"a": (0, 4)},
+                    "text": "climb :: fn n: int -> int do\n    if n < 2 do\n        ret n\n    end\n" + fill + "    ret climb(n - 1) + climb(n - 2) * 2 + f%d - f0\nend\nstart :: fn do\n    print(climb(?a))\nend\n" % (K - 1)})
     return out
 
 
